@@ -32,27 +32,40 @@ def splitName (s : String) : String × String :=
   | [] => ("", "")
   | n :: rest => (n, ":".intercalate rest)
 
-def parseOp (s : String) : Option Op :=
-  let (name0, rest) := splitName s
-  let (name, first) :=
-    if name0.endsWith "^" then ((name0.dropEnd 1).toString, Arm.notify)
-    else if name0.endsWith "~" then ((name0.dropEnd 1).toString, Arm.timer)
-    else (name0, Arm.cmd)
-  let plain := first == Arm.cmd
+def parseArm : Char → Option Arm
+  | 'c' => some .cmd
+  | 'n' => some .notify
+  | 't' => some .timer
+  | _ => none
+
+/-- `[+]name[@xyz]`: `+` = clock advanced first, `@xyz` = a permutation of `c`,`n`,`t` -/
+def parseHead (h : String) : Option (String × Sched) := do
+  let (clock, h) := if h.startsWith "+" then (true, (h.drop 1).toString) else (false, h)
+  match h.splitOn "@" with
+  | [name] => pure (name, { clock := clock })
+  | [name, perm] =>
+    let arms ← perm.toList.mapM parseArm
+    if arms.length == 3 && arms.eraseDups.length == 3 then pure (name, { clock := clock, prio := arms }) else none
+  | _ => none
+
+def parseOp (s : String) : Option Op := do
+  let (head, rest) := splitName s
+  let (name, sch) ← parseHead head
+  let plain := sch == ({} : Sched)
   match name with
   | "a" => if plain then (parseEntries rest).map Op.append else none
   | "f" =>
     let (pv, es) := splitName rest
-    do let (pi, pt) ← parsePair pv
-       let es ← parseEntries es
-       pure (Op.fca pi pt es first)
-  | "p" => (parsePair rest).map fun (i, t) => Op.purge i t first
-  | "r" => if rest.isEmpty then some (Op.reset first) else none
-  | "fl" => if rest.isEmpty then some (Op.flush first) else none
+    let (pi, pt) ← parsePair pv
+    let es ← parseEntries es
+    pure (Op.fca pi pt es sch)
+  | "p" => (parsePair rest).map fun (i, t) => Op.purge i t sch
+  | "r" => if rest.isEmpty then some (Op.reset sch) else none
+  | "fl" => if rest.isEmpty then some (Op.flush sch) else none
   | "al" => if plain then rest.toNat?.map Op.alloc else none
   | "g" => if plain then (parsePair rest).bind fun (a, b) => if b - a > 100000 then none else some (Op.get a b) else none
-  | "io" => if plain && rest == "n" then some Op.ioN else if plain && rest == "t" then some Op.ioT else none
-  | "close" => if plain && rest.isEmpty then some Op.close else none
+  | "io" => if rest.isEmpty then some (Op.io sch) else none
+  | "close" => if rest.isEmpty then some (Op.close sch) else none
   | "c" => if plain && rest == "p" then some (Op.crash false) else if plain && rest == "w" then some (Op.crash true) else none
   | _ => none
 
@@ -222,36 +235,57 @@ def isSegmentOf (rec h : List Entry) : Bool :=
     coexisted, so an entry that a truncation replaced cannot reappear next to its replacement -/
 def noResurrection (hist : List (List Entry)) (rec : List Entry) : Bool := hist.any (isSegmentOf rec)
 
-def recoveredOk (hist : List (List Entry)) (live : List Entry) (d : Nat) (rec : List Entry) : Option String :=
+/-- The three clauses of C18 for one crash. `vol`/`dur` (the store's two copies just before the crash) only refine
+    the name of a `durableKept` failure: was the lost entry ever written, or written but not fsynced. -/
+def recoveredOk (hist : List (List Entry)) (live : List Entry) (d : Nat) (rec : List Entry)
+    (vol : List Entry) (dur : Option (List Entry)) : Option String :=
   if !gapFree rec then some "c18-gap"
-  else if !durableKept live d rec then some "c18-durable-entry-lost"
+  else if !durableKept live d rec then
+    (if !durableKept live d vol then some "c18-durable-never-written"
+     else match dur with
+       | some du => if !durableKept live d du then some "c18-durable-not-synced" else some "c18-durable-entry-lost"
+       | none => some "c18-durable-entry-lost")
   else if !noResurrection hist rec then some "c18-resurrected-entry"
   else none
 
 /-- walk the case; `p` tracks well-formedness (resynchronised after each reopen), `hist` the logs seen so far -/
-def c18Walk : Plain → List (List Entry) → List Entry → Nat → List Op → List (String × Snap) → Nat → Option String × Nat
-  | _, _, _, _, [], _, n => (none, n)
-  | _, _, _, _, _, [], n => (none, n)
-  | p, hist, live, d, op :: ops, (_, o) :: recs, n =>
+def c18Walk : Plain → List (List Entry) → Snap → List Op → List (String × Snap) → Nat → Option String × Nat
+  | _, _, _, [], _, n => (none, n)
+  | _, _, _, _, [], n => (none, n)
+  | p, hist, pre, op :: ops, (_, o) :: recs, n =>
     match op with
     | .crash _ =>
-      (match recoveredOk hist live d o.ents with
+      (match recoveredOk hist pre.ents pre.durable o.ents pre.vol pre.dur with
        | some sig => (some sig, n + 1)
        | none =>
          let (ai, aT) := match o.boundary with | some x => x | none => (0, 0)
-         c18Walk { anchorI := ai, anchorT := aT, ents := o.ents } (o.ents :: hist) o.ents o.durable ops recs (n + 1))
-    | .close => c18Walk p (o.ents :: hist) o.ents o.durable ops recs n
+         c18Walk { anchorI := ai, anchorT := aT, ents := o.ents } (o.ents :: hist) o ops recs (n + 1))
+    | .close _ => c18Walk p (o.ents :: hist) o ops recs n
     | _ =>
       if !wfOp p op then (none, n)
-      else c18Walk (p.exec op).1 (o.ents :: hist) o.ents o.durable ops recs n
+      else c18Walk (p.exec op).1 (o.ents :: hist) o ops recs n
+
+def emptySnap : Snap :=
+  { lastLogId := none, first := 0, last := 0, durable := 0, isEmpty := true, lastEntry := none, terms := [],
+    firstOf := [], lastOf := [], ents := [], vol := [], dur := some [], boundary := none }
+
+/-- does the operation ask for an arm order other than "command first" (a forced `select!` race)? -/
+def Op.racy : Op → Bool
+  | .fca _ _ _ f => f.prio.head? != some Arm.cmd
+  | .purge _ _ f => f.prio.head? != some Arm.cmd
+  | .reset f => f.prio.head? != some Arm.cmd
+  | .flush f => f.prio.head? != some Arm.cmd
+  | _ => false
 
 def monitorC18 (c : Case) (out : String) : String :=
   if out == "panic" || out == "sched-fail" || out == "bad-case" then "skip"
   else match parseOutput out with
     | none => "bad c18-unparsable-output"
     | some recs =>
-      match c18Walk {} [[]] [] 0 c.ops recs 0 with
-      | (some sig, _) => "bad " ++ sig
+      match c18Walk {} [[]] emptySnap c.ops recs 0 with
+      | (some sig, _) =>
+        -- the engine and whether the schedule forced a select! race are part of the name of the failure
+        "bad " ++ sig ++ (if c.sim then "" else "-filestore") ++ (if c.ops.any Op.racy then "-race" else "")
       | (none, 0) => "skip"
       | (none, _) => "ok"
 
